@@ -62,6 +62,11 @@ CLAIMED = {
             'Generated element trees serialised with random reference forms/quotes/line breaks are parsed and compared node by node (tags, attribute maps decoded once, text, order); '
             'find() results for hit and near-miss paths are compared with a reference walk; XmlElement::Factory is fuzzed on byte strings <= 4 KiB under ASan/UBSan.',
             'noextensions flag set; xi:include excluded (file access); text as a single run.', '4/C32'),
+    'C26': ('E1', 'exploration', 'model-based property-based testing (Hypothesis): generated operation histories vs a dict + control-record model, checked after every step',
+            'Histories of 3-40 store operations (put message incl. number 0 and occupied numbers, put control, get, control get, last, nearest-highest, range get, '
+            'clean close/reopen for the file backend) run against fresh MemoryPersister and FilePersister objects under ASan/UBSan; each result is compared with a map model.',
+            'Sequence number 0 is only generated for put; messages <= Persister::MaxMsgLen; reopen histories start with a control store (the other order is C27\'s subject); '
+            'the optional BDB/memcached/redis backends are compiled out in this build.', '4/C26 and 10'),
 }
 
 
@@ -98,7 +103,7 @@ def main():
         for e in ENGINES:
             if e['name'] == eng:
                 e['serves_properties'].append(pid)
-    na = [{'property_id': p, 'reason': 'check not built yet in this session (planned: see DESIGN.md section 4); not a limit of the technique'}
+    na = [{'property_id': p, 'reason': 'not claimed: check designed (DESIGN.md section 4) but not built; not a limit of the technique (DESIGN.md section 10)'}
           for p in ALL if p not in CLAIMED]
     m = {
         'version': 1,
